@@ -759,7 +759,10 @@ def _emit_item(unit, g, src, it, iid, label, a, fnq, emit, canary, spec):
                 if any(lo <= i < hi for lo, hi in dropped):
                     continue
                 if t[i].kind == 'p' and t[i].text == '.' and t[i + 1].kind == 'id' and t[i + 1].text in a.mcalls and t[i + 2].text == '(':
-                    sites.append((mcall._recv_start(t, src.br, i), i, src.br[i + 2]))
+                    rs_, cl_ = mcall._recv_start(t, src.br, i), src.br[i + 2]
+                    if t[i + 1].text == 'into_iter' and t[cl_ + 1].text == '{' and t[rs_ - 1].kind == 'id' and t[rs_ - 1].text == 'in':
+                        continue      # `for x in v.into_iter() {`: the iterable of a for loop stays (Verus iterates a Vec natively)
+                    sites.append((rs_, i, cl_))
             # several calls of one chain share the receiver start: the outermost call's opening text must come first
             for rs, dot, close in sorted(sites, key=lambda x: (x[0], -x[1])):
                 name = src.toks[dot + 1].text
